@@ -48,6 +48,85 @@ func runC02(c *Ctx) {
 	c02Codecs(c, "C02.8")
 	c04FlushOrder(c, "C02.9")
 	c02RecoveryEnds(c, "C02.10")
+	c02UnloggedMutators(c, "C02.11")
+	c01RootRelocation(c, "C02.12")
+}
+
+// ---- C02.11 -------------------------------------------------------------------------
+// Statement entry points that change pages without producing log records (DDL) must
+// make the change durable themselves: every success return passes through flushPages.
+func c02UnloggedMutators(c *Ctx, rule string) {
+	c.Rule(rule, "a storage entry point called by a statement that changes pages (its call cone marks a page dirty) but returns no WALBatch makes its change durable itself: every success return passes through flushPages")
+	w := c.W
+	cg := w.CG()
+	dirtying := func(f *Func) bool {
+		for t := range cg.Reach(f) {
+			if t.Name == "storage.(*btreeNode).markDirty" {
+				return true
+			}
+		}
+		return false
+	}
+	n := 0
+	seen := map[*Func]bool{}
+	for _, name := range w.SortedFuncNames() {
+		caller := w.Funcs[name]
+		if caller.Pkg == w.Pkgs["storage"] {
+			continue
+		}
+		for _, cs := range cg.Sites[caller] {
+			for _, t := range cs.Targets {
+				if t.Pkg != w.Pkgs["storage"] || seen[t] || returnsWALBatch(t.Obj) || !dirtying(t) {
+					continue
+				}
+				if _, ex := c13Excluded[t.Name]; ex && t.Name != "storage.CreateDB" {
+					continue
+				}
+				seen[t] = true
+				n++
+				key := t.Name + "|durable-without-log"
+				g := t.Graph()
+				miss, _ := g.Forward(nil, g.SuccessEdges, func(nn ast.Node, at Loc) Verdict {
+					if g.containsCall(nn, "storage.*.flushPages") != nil {
+						return Cut
+					}
+					if r, ok := nn.(*ast.ReturnStmt); ok {
+						if g.ReturnMayBeNil(r) {
+							return Hit
+						}
+						return Cut
+					}
+					return Go
+				}, func(b *cfg.Block) Verdict {
+					if g.IsNoReturnExit(b) {
+						return Go
+					}
+					return Hit
+				})
+				// a deferred Close() that flushes also counts (CreateDB)
+				if miss {
+					inspectBody(t.Decl.Body, func(x ast.Node) bool {
+						if d, ok := x.(*ast.DeferStmt); ok {
+							for tt := range cg.Reach(w.resolve(t.Callee(d.Call))...) {
+								if tt.Name == "storage.(*fileStore).flushPages" {
+									miss = false
+								}
+							}
+						}
+						return true
+					})
+				}
+				if miss {
+					c.Fail(rule, key, t.Decl.Pos(), "%s changes pages, writes no log record, and can return success without flushing: the statement is acknowledged but lost by a crash before the next timer flush", t.Name)
+				} else {
+					c.OK(rule, key, t.Decl.Pos(), 1, "every success return passes through flushPages")
+				}
+			}
+		}
+	}
+	if n == 0 {
+		c.Undecided(rule, "subjects", "no unlogged page-changing storage entry point found (CREATE TABLE expected)")
+	}
 }
 
 // ---- C02.1 ------------------------------------------------------------------------
@@ -1169,6 +1248,15 @@ func c02RecoveryEnds(c *Ctx, rule string) {
 		if !ok {
 			c.Undecided(rule, key, "store not located")
 			continue
+		}
+		if ri.guard != nil && enclosingLoop(f.Decl.Body, st) != nil {
+			gl, _ := g.Locate(ri.guard.Cond)
+			k2 := f.Name + "|counter-covers-skipped#" + itoa(i+1)
+			if g.Dominates(loc, gl) {
+				c.OK(rule, k2, st.Pos(), 1, "the counter follows every record, including those the LSN guard skips")
+			} else {
+				c.Fail(rule, k2, st.Pos(), "the LSN counter is only moved for records that are re-applied: after a crash between the page writes and the header write it stays below LSNs already on disk, and the next statement's record is skipped by the following recovery")
+			}
 		}
 		hit, wit := g.Forward(&loc, g.SuccessEdges, func(nn ast.Node, at Loc) Verdict {
 			if nn == ast.Node(st) {
